@@ -94,6 +94,12 @@ func createSorterDesc(obj types.Object, typeName string) (SorterDescs, error) {
 		if err := desc.Fields.Validate(); err != nil {
 			return nil, err
 		}
+		// `Name` and `*Name` are two sorters here but one type name in the generated file.
+		if other, ok := descs["*"+desc.sortTypeName]; ok {
+			return nil, errors.New("sorter " + other.SortTypeName() + " of " + typeName +
+				" is tagged both as " + desc.sortTypeName + " and as " + other.sortTypeName +
+				"; both would declare the type " + other.SortTypeName())
+		}
 	}
 
 	result := make(SorterDescs, 0, len(sortFields))
